@@ -150,13 +150,15 @@ def verify_and_or_table(run):
     fn = src.func("factory", "FunctionFactory._create_operators")
     run.under_contract("factory", "FunctionFactory._create_operators", fn)
     rows = {}
+    alias = {t.id: ast.unparse(st.value) for st in fn.body if isinstance(st, (ast.Assign, ast.AnnAssign)) and getattr(st, "value", None) is not None
+             for t in (st.targets if isinstance(st, ast.Assign) else [st.target]) if isinstance(t, ast.Name)}
     for call in ast.walk(fn):
         if isinstance(call, ast.Call) and ast.unparse(call.func) == "Function.Element" and call.args:
             a0 = call.args[0]
             name = a0.value if isinstance(a0, ast.Constant) else {"Rule.AND": "and", "Rule.OR": "or"}.get(ast.unparse(a0), ast.unparse(a0))
             kw = {k.arg: k.value for k in call.keywords}
             prec = kw.get("precedence"); assoc = kw.get("associativity"); ar = kw.get("arity")
-            rows[name] = (int(prec.args[0].value) if isinstance(prec, ast.Call) and ast.unparse(prec.func) == "p" else None,
+            rows[name] = (int(prec.args[0].value) if isinstance(prec, ast.Call) and (alias.get(prec.func.id) if isinstance(prec.func, ast.Name) else ast.unparse(prec.func)) == "self._precedence" else None,
                           (assoc.value if isinstance(assoc, ast.Constant) else ast.literal_eval(ast.unparse(assoc))) if assoc is not None else -1,
                           ar.value if isinstance(ar, ast.Constant) else None)
     # precedence(importance) = 100 - 10*importance: smaller importance binds tighter; default associativity -1 = left
